@@ -886,13 +886,36 @@ func (e *Exec) evalClause(x SExpr, env *SpecEnv) (term string, facts []string) {
 	}
 	saved := e.specHook
 	seenFact := map[string]bool{}
-	e.specHook = func(t, famSym string) {
+	e.specHook = func(t, famSym, container string) {
+		if famSym == "len" {
+			// type invariant of slice values stored in the heap: a length is never negative
+			if seenFact[t] {
+				return
+			}
+			seenFact[t] = true
+			body := fmt.Sprintf("(>= %s 0)", t)
+			var bs []string
+			for _, b := range e.curBinders {
+				sym := b[1:strings.Index(b, " ")]
+				if strings.Contains(t, sym) {
+					bs = append(bs, b)
+				}
+			}
+			if len(bs) > 0 {
+				body = fmt.Sprintf("(forall (%s) (! %s :pattern (%s)))", strings.Join(bs, " "), body, t)
+			}
+			facts = append(facts, body)
+			return
+		}
 		birth, ok := e.famBirth[famSym]
 		if !ok || seenFact[t] {
 			return
 		}
 		seenFact[t] = true
 		body := fmt.Sprintf("(or (= %s null) (%s %s))", t, birth, t)
+		if container != "" {
+			body = fmt.Sprintf("(=> (%s %s) %s)", birth, container, body)
+		}
 		// close over the bound variables that occur in the term
 		var bs []string
 		for _, b := range e.curBinders {
